@@ -21,7 +21,9 @@
     the shape-map parsers and the three instance trackers) gives the instances
     dictionary [node -> keys], a key being a class IRI or a label [<iri>];
     [Profiler.profile] with [p_map_labels] = the labels of the items;
-    [Shexing.shex]; [SerialShexc.render].  Nothing of the pipeline is
+    [ShexingFix.shex_cur] (= [Shexing.shex], or [ShexingFix.shex_f] once
+    ClassShexer removes the empty shapes before the merges: the generated flag
+    [c_clean_before_merge] tells); [SerialShexc.render].  Nothing of the pipeline is
     re-modelled here: the three stages are the frozen, validated definitions.
 
     What the record [rcfg] contributes: the inference switches, the report
@@ -38,7 +40,7 @@
     serialiser do not ([str(instantiation_property)]). *)
 From Coq Require Import List Ascii String ZArith NArith Bool.
 From Shexer Require Import Lib.PyStr Lib.Dict Gen.Consts Spec.Rdf Model.Tracker Model.Profiler
-     Model.Tokens Model.Freq Model.Shexing Model.SerialShexc Model.Run.
+     Model.Tokens Model.Freq Model.Shexing Model.ShexingFix Model.SerialShexc Model.Run.
 From Shexer Require Model.Selectors.
 Import ListNotations.
 
@@ -117,7 +119,7 @@ Section RunMap.
           match profile (pcfg_map c orc sp targets) ins g with
           | inr e => inr (merr_of_p e)
           | inl (P, C, _) =>
-            match shex fa (scfg_map c sp ns) thr P C with
+            match shex_cur fa (scfg_map c sp ns) thr P C with
             | inr e => inr (MERun (rerr_of_s e))
             | inl shapes => inl (ns, shapes)
             end
